@@ -38,9 +38,10 @@ type c13Case struct {
 	// channel that does not exist) fill the connection's error queue;
 	// "+channel-error" = after that a response on the channel under test
 	// carries an unusable packet size announcement (a channel-level error);
-	// "channel-errors-overfull[/unknown-token|/mixed]" = twelve unconsumed
+	// "channel-errors-overfull[/row-without-format|/mixed]" = twelve unconsumed
 	// channel-level errors on the channel under test (its error queue holds
-	// ten), from unusable packet size announcements, unknown tokens or both
+	// ten), from unusable packet size announcements, rows without a format
+	// (re-reported with every further packet) or both
 	ErrState string `json:"error_queues,omitempty"`
 	// Cause: the contexts the case cancels (the caller's, the connection's
 	// parent) are cancelled WITH a cause (context.WithCancelCause); their
@@ -343,8 +344,8 @@ func c13Run(c *Ctx, cs c13Case) {
 		for i := 0; i < n; i++ {
 			var body []byte
 			switch {
-			case strings.HasSuffix(cs.ErrState, "/unknown-token") || (strings.HasSuffix(cs.ErrState, "/mixed") && i%2 == 1):
-				body = []byte{0x01, 0x00, 0x00}
+			case strings.HasSuffix(cs.ErrState, "/row-without-format") || (strings.HasSuffix(cs.ErrState, "/mixed") && i%2 == 1):
+				body = []byte{srv.TokRow, 1, 2, 3, 4, 5, 6, 7, 8}
 			default:
 				body = srv.EnvChange(srv.EnvMember{Type: 4, New: "4", Old: "512"})
 			}
@@ -923,10 +924,16 @@ func runC13(c *Ctx) {
 		}
 	}
 	// overfull channel error queue: twelve unconsumed channel-level errors
-	// (unusable packet size announcements, unknown tokens, both in turn)
-	for _, es := range []string{"channel-errors-overfull", "channel-errors-overfull/unknown-token", "channel-errors-overfull/mixed"} {
+	// (unusable packet size announcements, rows without a format, both in turn)
+	for _, es := range []string{"channel-errors-overfull", "channel-errors-overfull/row-without-format", "channel-errors-overfull/mixed"} {
 		for _, f := range []int{0, 2} {
 			for _, logical := range []bool{false, true} {
+				if !logical && es != "channel-errors-overfull" && quick {
+					// a row without its format stays at the head of channel
+					// 0's receive queue, the logout answer behind it is never
+					// parsed and Close legally waits its minute: thorough only
+					continue
+				}
 				for _, a := range []string{"close", "close-twice", "conn-close"} {
 					cases = append(cases, c13Case{Action: a, Fill: f, Logical: logical, Peer: "prompt", ErrState: es, Channels: f / 2})
 				}
